@@ -737,7 +737,7 @@ func (fr *Frame) indexVal(s *State, base, idx *Val, pos token.Pos) *Val {
 			return fr.readFact(s, &Val{T: u.Elem(), S: fmt.Sprintf("(seq.nth %s %s)", base.S, idx.S)})
 		}
 		hn, hs := fr.eng.elemHeap(u.Elem())
-		return fr.readFact(s, &Val{T: u.Elem(), S: fmt.Sprintf("(select (select %s (sl_ref %s)) (ix (sl_off %s) %s))", s.heap(hn, hs), base.S, base.S, idx.S)})
+		return fr.readFact(s, &Val{T: u.Elem(), S: fmt.Sprintf("(select (select %s (sl_ref %s)) %s)", s.heap(hn, hs), base.S, elemAddr(base, idx.S))})
 	case *types.Array:
 		if idx.Const == nil {
 			fr.vc.oblige(s, "idx", fmt.Sprintf("(and (<= 0 %s) (< %s %d))", idx.S, idx.S, u.Len()), pos, "index out of range")
@@ -802,7 +802,16 @@ func (fr *Frame) evalSliceExpr(s *State, x *ast.SliceExpr) *Val {
 		}
 		fr.vc.oblige(s, "slice", fmt.Sprintf("(and (<= 0 %s) (<= %s %s) (<= %s %s) (<= %s %s))", los, los, his, his, maxs, maxs, capS), x.Pos(), "slice bounds out of range")
 		r := fmt.Sprintf("(mk_Slice (sl_ref %s) (+ (sl_off %s) %s) (- %s %s) (- %s %s))", base.S, base.S, los, his, los, maxs, los)
-		return &Val{T: t, S: fr.vc.define("sl", "Slice", r)}
+		sub := &[2]string{"(sl_off " + base.S + ")", los}
+		if base.Sub != nil {
+			sub = &[2]string{base.Sub[0], fmt.Sprintf("(+ %s %s)", base.Sub[1], los)}
+			if base.Sub[1] == "0" {
+				sub[1] = los
+			} else if los == "0" {
+				sub[1] = base.Sub[1]
+			}
+		}
+		return &Val{T: t, S: fr.vc.define("sl", "Slice", r), Sub: sub}
 	case *types.Array:
 		_ = u
 		fr.imprecise(x.Pos(), "slicing an array value")
@@ -993,4 +1002,18 @@ func (fr *Frame) typeAssert(s *State, v *Val, t types.Type) (*Val, string) {
 	ok := fmt.Sprintf("(= (tagof %s) %d)", v.S, id)
 	val := &Val{T: t, S: fmt.Sprintf("(%s %s)", unbox, v.S)}
 	return val, ok
+}
+
+// elemAddr returns the position of element i of slice v inside its backing array.
+func elemAddr(v *Val, i string) string {
+	if v.Sub != nil {
+		if v.Sub[1] == "0" {
+			return fmt.Sprintf("(ix %s %s)", v.Sub[0], i)
+		}
+		if i == "0" {
+			return fmt.Sprintf("(ix %s %s)", v.Sub[0], v.Sub[1])
+		}
+		return fmt.Sprintf("(ix %s (+ %s %s))", v.Sub[0], v.Sub[1], i)
+	}
+	return fmt.Sprintf("(ix (sl_off %s) %s)", v.S, i)
 }
